@@ -26,7 +26,9 @@ Sels == << EPath(A), EPath(C), EPipe(EPath(B), EPath(A)), EPipe(EPath(B), Idx(EP
 Small == << EPath(A), EPath(C), Idx(EPath(A), 0), Idx(EPath(A), 2), Idx(EPath(A), -1), EPipe(EPath(B), EPath(A)), EPipe(EPipe(EPath(A), ESplat), IsTwo), EIndex(0), EIndex(2) >>
 Derive == << ENul("REVERSE"), ESlice(ELit(IntV(1)), ENul("LENGTH")), ESlice(ELit(IntV(0)), ELit(IntV(2))), EUn("MAP", ESelf), EBin("ADD", ESelf, ESelf), ENul("SORT"),
              ECollect(EPipe(ESplat, EUn("SELECT", ECmp(TRUE, FALSE, ESelf, ELit(IntV(1)))))), ENul("UNIQUE"), EFlatten(-1), EUn("FILTER", EBin("NOT_EQUALS", ESelf, ELit(IntV(0)))),
-             EUn("SORT_BY", EPath(A)), ECollect(ESplat) >>
+             EUn("SORT_BY", EPath(A)), ECollect(ESplat),
+             ENul("KEYS"), EBin("SUBTRACT", ESelf, ECollect(ELit(IntV(2)))), EBin("SUBTRACT", ESelf, ECollect(EEmpty)), ENul("TO_ENTRIES"), EUn("GROUP_BY", ESelf), EUn("UNIQUE_BY", ESelf),
+             EBin("ADD", ESelf, ECollect(ELit(IntV(7)))), EUn("PICK", ECollect(EUnion(ELit(IntV(2)), EUnion(ELit(IntV(0)), ELit(IntV(1)))))), EUn("OMIT", ECollect(ELit(IntV(5)))) >>
 \* selections that yield KEY nodes (`key`, `...`): deleting a key deletes its entry
 IsStr(x) == EUn("SELECT", EBin("EQUALS", ESelf, ELit(StrV(x))))
 KeySels == << EPipe(EPath(A), ENul("GET_KEY")), EPipe(EPipe(EPath(B), EPath(A)), ENul("GET_KEY")), EPipe(ERecurse(TRUE), IsStr(A)), EPipe(ERecurse(TRUE), IsStr(B)),
